@@ -2,7 +2,7 @@
 import random, time, multiprocessing as mp
 from harness import tlc, containers as ct
 
-OWN = {"C06": {"roundtrip"}, "C14": {"wellformed", "contents", "blocks"}}
+OWN = {"C06": {"roundtrip"}, "C14": {"wellformed", "contents", "blocks", "leaders"}}
 
 
 def gates(ctx, thorough):
@@ -24,9 +24,9 @@ def judge(ctx, name, recs, t0):
             ctx.add_class("tapefile|%s|%s|%s|%s" % (c["len"], c["name"], c["type"], c["dtype"]))
         ctx.add_class("tape|%d|%s|%s" % (min(v["nfiles"], 4), v["hasempty"], r["origin"]))
         for cl in v["failed"]:
-            if cl not in own:
+            if cl not in own or (r["origin"] == "spec" and cl == "leaders"):
                 continue
-            if r["origin"] == "spec" and cl != "roundtrip":
+            if r["origin"] == "spec" and cl not in ("roundtrip", "leaders"):
                 raise tlc.MachineryError("spec-written tape fails the spec's own scanner (%s, %s)" % (cl, v["why"]))
             item = {"clause": cl, "class": dict(v["fclass"], origin=r["origin"], hasempty=v["hasempty"], emptybefore=v["emptybefore"]),
                     "symptom": {"why": v["why"], "nlisted_minus_nfiles": v["nlisted"] - v["nfiles"], "exc": r["listed"]["exc"].split(":")[0]}}
